@@ -471,6 +471,8 @@ class World:
 
         def fn():
             w.clog.append({'t': w.sim.now, 'node': spec['id'], 'inc': inc, 'ev': 'run-enter'})
+            if spec.get('stop_preset'):
+                stop_evt.set()
             try:
                 VFilter.run(cfg, sig_stop=False, stop_evt=stop_evt, prop_exit=spec.get('prop_exit', 'clean'),
                             obey_exit=spec.get('obey_exit', 'all'), loop_exc=spec.get('loop_exc'))
